@@ -108,6 +108,17 @@ def run(ctx):
                                   (": specification computes " + json.dumps(why[0])[:600]) if why else ""))
         elif seen.get("C24-" + name, 0) == before.get("C24-" + name, 0):
             ctx.notes.append("C24-%s not reproduced by the directed history %s" % (name, script))
+    # TODO-KNOWN-FINDING (C24-F3, experiment outside the specification): the metadata file is modelled as old-or-new;
+    # the property's file model also allows the new bytes at the old length when the RLP encoding grows by a byte
+    # (flushOffset >= 128 bytes from the 22nd item on).  Such an image does not open ("failed to decode metadata").
+    s3, _ = ctx.drive(drv, ["-mode", "xf", "-cfg", "g2", "-torn-meta", "-script", "a4,a4,a4,a4,a4,a4,s", "-images", 1, "-n", 1,
+                            "-trace", os.path.join(ctx.scratch, "trace-F3.ndjson"), "-dir", os.path.join(ctx.scratch, "fz-F3")],
+                      name="c24-experiment-torn-metadata", timeout=T)
+    torn, torn_failed = s3.get("counts", {}).get("torn-meta", 0), s3.get("counts", {}).get("torn-meta-open-failed", 0)
+    if torn_failed:
+        line = "PENDING-FINDING: property=C24 C24-F3 a crash between the in-place metadata rewrite and its fsync that keeps the new bytes at the old length leaves an undecodable metadata file: NewFreezer fails (%d of %d torn images; metadata is old-or-new in the specification)" % (torn_failed, torn)
+        print(line)
+        ctx.notes.append(line)
     for f in sorted(seen):
         line = "PENDING-FINDING: property=C24 %s %s (%d crash images)" % (f, FINDINGS.get(f, ""), seen[f])
         print(line)
